@@ -923,6 +923,8 @@ pub fn gen_c19(o: &mut Out, tier: &str, seed: u64) {
     for a in [0u64, 1, u64::MAX] { d(o, "pedersen", format!("fresh pedersen {} {}", a, n)); }
     let k = kp(&mut r);
     for a in [0u64, 77, u64::MAX] { d(o, "enc", format!("fresh enc {} {} {}", hp(&k.p), a, n)); }
+    for a in [0u64, 77, u64::MAX] { d(o, "enc-u64", format!("fresh encu64 {} {} {}", hp(&k.p), a, n)); }
+    d(o, "seckeygen", format!("fresh seckeygen {}", n));
     let (k2, k3) = (kp(&mut r), kp(&mut r));
     d(o, "genc", format!("fresh genc 5 {} {} {}", hp(&k.p), hp(&k2.p), n));
     d(o, "genc", format!("fresh genc 5 {} {} {} {}", hp(&k.p), hp(&k2.p), hp(&k3.p), n));
